@@ -20,3 +20,44 @@ def touches(failure, elements):
             if isinstance(x, str) and x in els:
                 return True
     return False
+
+
+def c05_date_shaped(failure):
+    """the offered value is a date-shaped string (regular expression passes, calendar does not)"""
+    import re
+    v = failure['input'].get('value', '')
+    return re.fullmatch(r"'-?\d{4,}-\d\d-\d\d[^']*'", v) is not None
+
+
+def c05_class_is(failure, cls):
+    return failure['input'].get('class') == cls
+
+
+def c05_class_in(failure, classes):
+    return failure['input'].get('class') in classes
+
+
+def c04_attr_is(failure, attrs):
+    """C04 input mentions one of the attribute names (pair layer: the attribute; history layer: any op on it)"""
+    inp = failure['input']
+    if inp.get('attribute') in attrs:
+        return True
+    return any(len(op) > 1 and op[1] in attrs for op in inp.get('ops', []))
+
+
+def perm_longer_than(failure, n):
+    return len(failure['input'].get('perm', [])) > n
+
+
+def c08_only_stripped(failure):
+    """the first difference is element text that differs only by surrounding white space, on an xs:string-typed
+    element, in a document that was generated with surrounding white space"""
+    o = failure['observed']
+    if 'surrounding-whitespace' not in failure['input'].get('flags', []):
+        return False
+    t = o.get('text')
+    return bool(t) and t[0] is not None and t[1] is not None and t[0] != t[1] and t[0].strip() == t[1]
+
+
+def kind_type_pairs(failure, pairs):
+    return [failure.get('kind'), failure.get('type')] in pairs
